@@ -233,9 +233,12 @@ def _ents(m):
 
 
 def map_ctor(pairs):
-    """XPath 3.1 3.11.1: XQDY0137 if two keys are the same key."""
+    """XPath 3.1 3.11.1: a key of type xs:untypedAtomic is converted to xs:string;
+    XQDY0137 if two keys are the same key."""
     out = []
     for k, v in pairs:
+        if k[1] == 'untypedAtomic':
+            k = ('a', 'string', k[2])
         if any(same_key(k, k2) for k2, _ in out):
             raise XErr('XQDY0137')
         out.append((k, tuple(v)))
@@ -494,6 +497,8 @@ def _atoms_deep_equal(a, b):
         va, vb = _num_value(ta, a[2])[0], _num_value(tb, b[2])[0]
         if va == 'NaN' or vb == 'NaN':
             return va == vb
+        if ta != tb and not (ta in ('integer', 'decimal') and tb in ('integer', 'decimal')):
+            raise NoVerdict('numeric promotion')      # left to the comparison property (C07)
         if va == vb:
             return True
         if isinstance(va, str) or isinstance(vb, str):
